@@ -645,10 +645,24 @@ func (f *Frame) loopBackEdge(from, head *ssa.BasicBlock) {
 
 // lockStable: lock component k has, for every object allocated on loop entry, the value it had on loop entry.
 func (f *Frame) lockStable(k string, li *loopInfo, st *State) string {
+	e := f.e
+	if k == "CH.pending" || k == "CH.nrecv" {
+		// hand-off ghost state of channels other than the ones this function consumes is untouched by the loop
+		now := e.comp(st, k, "")
+		was := e.comp(li.entrySt, k, "")
+		if now == was {
+			return ""
+		}
+		var excl []string
+		for ch := range f.tasks {
+			excl = append(excl, not(eq("r!k", ch)))
+		}
+		sort.Strings(excl)
+		return fmt.Sprintf("(forall ((r!k Int)) (! (=> %s (= (select %s r!k) (select %s r!k))) :pattern ((select %s r!k))))", and(excl...), now, was, now)
+	}
 	if !(strings.HasPrefix(k, "LW.") || strings.HasPrefix(k, "LR.")) {
 		return ""
 	}
-	e := f.e
 	now := e.comp(st, k, "")
 	was := e.comp(li.entrySt, k, "")
 	if now == was {
